@@ -148,6 +148,81 @@ func lenAtLeast(f *ssa.Function, in ssa.Instruction, path string, k int64) bool 
 	})
 }
 
+// callers index over allRepoFuncs (rebuilt when the function set changes): static call sites of every repo function,
+// and the functions that are also used as values (for which the static sites are not all the callers).
+var (
+	callersFor    []*ssa.Function
+	callersIdx    map[*ssa.Function][]*ssa.Call
+	usedAsValueIx map[*ssa.Function]bool
+)
+
+func callersOf(f *ssa.Function) ([]*ssa.Call, bool) {
+	if len(callersFor) != len(allRepoFuncs) || (len(allRepoFuncs) > 0 && callersFor[0] != allRepoFuncs[0]) {
+		callersFor = allRepoFuncs
+		callersIdx = map[*ssa.Function][]*ssa.Call{}
+		usedAsValueIx = map[*ssa.Function]bool{}
+		for _, g := range allRepoFuncs {
+			eachInstr(g, func(in ssa.Instruction) {
+				var cc *ssa.CallCommon
+				if ci, ok := in.(ssa.CallInstruction); ok {
+					cc = ci.Common()
+					if cal := cc.StaticCallee(); cal != nil {
+						if call, isCall := in.(*ssa.Call); isCall {
+							callersIdx[cal] = append(callersIdx[cal], call)
+						} else {
+							usedAsValueIx[cal] = true // go / defer: not a plain call site
+						}
+					}
+				}
+				for _, op := range in.Operands(nil) {
+					if op == nil || *op == nil {
+						continue
+					}
+					if fn, ok := (*op).(*ssa.Function); ok {
+						if cc != nil && cc.Value == ssa.Value(fn) {
+							continue
+						}
+						usedAsValueIx[fn] = true
+					}
+				}
+			})
+		}
+	}
+	return callersIdx[f], usedAsValueIx[f]
+}
+
+// lenAtLeastIP: lenAtLeast, or - for a slice that is a parameter of an unexported function which is only ever
+// called directly - the same fact established by every caller before the call (the caller checks, the helper
+// slices: the usual shape after a block is extracted into a helper).
+func lenAtLeastIP(f *ssa.Function, in ssa.Instruction, xv ssa.Value, k int64, depth int) bool {
+	if lenAtLeast(f, in, pathOf(xv), k) {
+		return true
+	}
+	if n, ok := staticLen(xv, 0); ok && n >= k {
+		return true
+	}
+	prm, ok := stripConv(xv).(*ssa.Parameter)
+	if !ok || depth > 2 || f.Object() == nil || f.Object().Exported() || f.Parent() != nil {
+		return false
+	}
+	idx := -1
+	for i, p := range f.Params {
+		if p == prm {
+			idx = i
+		}
+	}
+	sites, asValue := callersOf(f)
+	if idx < 0 || asValue || len(sites) == 0 {
+		return false
+	}
+	for _, s := range sites {
+		if idx >= len(s.Call.Args) || s.Parent() == nil || !lenAtLeastIP(s.Parent(), s, s.Call.Args[idx], k, depth+1) {
+			return false
+		}
+	}
+	return true
+}
+
 // boundCandidates lists constant-bound slicing / indexing of dynamically sized values and allocation sizes that
 // are not derived from in-memory lengths, with whether a dominating test discharges them.
 type boundCand struct {
@@ -191,8 +266,8 @@ func boundCandidates(f *ssa.Function) []boundCand {
 				out = append(out, boundCand{in, fmt.Sprintf("%s[…%d…]", firstN(xp, 50), k), true, fmt.Sprintf("static length %d", n)})
 				return
 			}
-			g := lenAtLeast(f, in, xp, k)
-			out = append(out, boundCand{in, fmt.Sprintf("%s[…%d…]", firstN(xp, 50), k), g, "dominated by len >= " + fmt.Sprint(k)})
+			g := lenAtLeastIP(f, in, x.X, k, 0)
+			out = append(out, boundCand{in, fmt.Sprintf("%s[…%d…]", firstN(xp, 50), k), g, "dominated by len >= " + fmt.Sprint(k) + " (here or at every call site)"})
 		case *ssa.IndexAddr, *ssa.Index:
 			var xv, iv ssa.Value
 			if ia, ok := x.(*ssa.IndexAddr); ok {
@@ -216,8 +291,8 @@ func boundCandidates(f *ssa.Function) []boundCand {
 				out = append(out, boundCand{in, fmt.Sprintf("%s[%d]", firstN(xp, 50), k), true, fmt.Sprintf("static length %d", n)})
 				return
 			}
-			g := lenAtLeast(f, in, xp, k+1)
-			out = append(out, boundCand{in, fmt.Sprintf("%s[%d]", firstN(xp, 50), k), g, "dominated by len > " + fmt.Sprint(k)})
+			g := lenAtLeastIP(f, in, xv, k+1, 0)
+			out = append(out, boundCand{in, fmt.Sprintf("%s[%d]", firstN(xp, 50), k), g, "dominated by len > " + fmt.Sprint(k) + " (here or at every call site)"})
 		case *ssa.MakeSlice:
 			for _, sz := range []ssa.Value{x.Len, x.Cap} {
 				if bad := unboundedSize(sz, 0); bad != "" {
